@@ -1,6 +1,129 @@
-From Coq Require Import Reals List Arith.
+(* C05  Directional estimators return valid distributions and conserve energy.
+   Only statements; every proof is [exact lemma].  Model: OSU.Model.Estimators. *)
+From Coq Require Import Reals List Arith Lra.
 From OSU.Model Require Import Estimators.
 From OSU.Proofs Require Import Estimators.
 Import ListNotations.
-Theorem to_2d_length : forall e D, length (to_2d e D) = Nat.min (length e) (length D).
-Proof. exact to_2d_length. Qed.
+Open Scope R_scope.
+
+(* ---- MEM (Lygre & Krogstad closed form).  mem_point returns Some exactly when 1-|c1|^2 <> 0, no
+   denominator |1 - Phi1 e^{-i th} - Phi2 e^{-2 i th}|^2 vanishes on the grid and the discrete integral is
+   non-zero; then every value is >= 0 and sum_j D_j * (2 pi / N) = 1 -- for ANY finite moments, realisable or
+   not (the sign of the numerator cancels in the normalisation). *)
+Theorem mem_valid : forall th a1 b1 a2 b2 D,
+  mem_point th a1 b1 a2 b2 = Some D ->
+  Forall (fun x => 0 <= x) D /\ sumR D * (2 * PI / INR (length th)) = 1 /\ length D = length th.
+Proof. exact mem_valid. Qed.
+
+(* the guards pass under the premises of the property: a1^2+b1^2 < 1, numerator <> 0, no singular direction *)
+Theorem mem_point_defined : forall th a1 b1 a2 b2,
+  th <> [] -> a1 * a1 + b1 * b1 < 1 -> mem_num a1 b1 a2 b2 <> 0 ->
+  (forall t, In t th -> mem_den (mem_phi1 a1 b1 a2 b2) (mem_phi2 a1 b1 a2 b2) t <> 0) ->
+  exists D, mem_point th a1 b1 a2 b2 = Some D.
+Proof. exact mem_point_defined. Qed.
+
+(* what estimate_directional_distribution(method="mem") returns (per degree, N directions) *)
+Theorem mem_estimate_valid : forall dirs a1 b1 a2 b2 D,
+  estimate_entry VMem dirs (Some a1) (Some b1) (Some a2) (Some b2) = EDist D ->
+  dirs <> [] ->
+  mem_guard (to_rad dirs) a1 b1 a2 b2 = true ->
+  exists xs, D = map Some xs /\ Forall (fun x => 0 <= x) xs /\
+             sumR xs * (360 / INR (length dirs)) = 1 /\ length xs = length dirs.
+Proof. exact mem_estimate_valid. Qed.
+
+(* ---- MEM2: for EVERY finite lambda the distribution is strictly positive with unit integral, so whatever
+   Newton, scipy's root finder, the least-squares fallback or the first guess deliver is a valid distribution *)
+Theorem mem2_dist_valid : forall l d th,
+  th <> [] -> length d = length th -> Forall (fun x => 0 < x) d ->
+  Forall (fun x => 0 < x) (dist l d th) /\ wsum (dist l d th) d = 1 /\ length (dist l d th) = length th.
+Proof. exact mem2_dist_valid. Qed.
+
+(* the one documented exception: NaN in the first guess (NaN moments) gives the all-zero row *)
+Theorem nan_guess_zero : forall approx mo d th,
+  newton_solver approx mo None d th = Dist (map (fun _ => 0) d) None.
+Proof. exact nan_guess_zero. Qed.
+
+(* every status of the modelled Newton solver (converged, max_iter, failed line search) and the approximate
+   variant return dist(lambda) for some lambda, hence a valid distribution *)
+Theorem newton_solver_valid : forall approx mo g d th D st,
+  th <> [] -> length d = length th -> Forall (fun x => 0 < x) d ->
+  newton_solver approx mo (Some g) d th = Dist D st ->
+  Forall (fun x => 0 < x) D /\ wsum D d = 1 /\ length D = length th.
+Proof. exact newton_solver_valid. Qed.
+
+(* estimate_directional_distribution(method="mem2", solution_method in {newton, approximate}), finite moments *)
+Theorem mem2_estimate_valid : forall v dirs a1 b1 a2 b2 D,
+  v <> VMem -> dirs <> [] ->
+  estimate_entry v dirs (Some a1) (Some b1) (Some a2) (Some b2) = EDist D ->
+  exists xs, D = map Some xs /\ Forall (fun x => 0 < x) xs /\
+             wsum xs (map (fun w => w / jac_deg) (incr_newton (to_rad dirs))) = 1 /\
+             length xs = length dirs.
+Proof. exact mem2_estimate_valid. Qed.
+
+(* on np.linspace(0,360,N) the midpoint increments are 2 pi / N (N >= 3), i.e. 360/N degrees *)
+Theorem incr_newton_uniform : forall n, (3 <= n)%nat ->
+  incr_newton (to_rad (linspace360 n)) = map (fun _ => 2 * PI / INR n) (seq 0 n).
+Proof. exact incr_newton_uniform. Qed.
+
+Theorem estimate_nan_moments : forall v dirs a1 b1 a2 b2,
+  all_some4 a1 b1 a2 b2 = None ->
+  incr_ok (incr_newton (to_rad dirs)) = true ->
+  estimate_entry v dirs a1 b1 a2 b2 =
+    match v with
+    | VMem => EDist (map (fun _ => None) dirs)
+    | _ => EDist (map (fun _ => Some 0) dirs)
+    end.
+Proof. exact estimate_nan_moments. Qed.
+
+(* ---- energy: e_i * D_ij integrated over direction gives back e_i, hence the same total variance *)
+Theorem energy_roundtrip : forall step e D,
+  length e = length D -> Forall (fun row => wsum row step = 1) D ->
+  map (dint step) (to_2d e D) = e.
+Proof. exact energy_roundtrip. Qed.
+
+Theorem variance_preserved : forall f step e D,
+  length e = length D -> Forall (fun row => wsum row step = 1) D ->
+  trapz f (map (dint step) (to_2d e D)) = trapz f e.
+Proof. exact variance_preserved. Qed.
+
+Theorem to_2d_nonneg : forall e D,
+  Forall (fun x => 0 <= x) e -> Forall (Forall (fun x => 0 <= x)) D ->
+  Forall (Forall (fun x => 0 <= x)) (to_2d e D).
+Proof. exact to_2d_nonneg. Qed.
+
+(* ---- batches: entry i of the batch result is the function of entry i alone *)
+Theorem estimate_batch_independent : forall v dirs b i dflt,
+  (i < length b)%nat ->
+  nth i (estimate_batch v dirs b) dflt =
+  (let '(a1, b1, a2, b2) := nth i b (None, None, None, None) in estimate_entry v dirs a1 b1 a2 b2).
+Proof. exact estimate_batch_independent. Qed.
+
+Theorem estimate_batch_single : forall v dirs b i q,
+  nth_error b i = Some q ->
+  nth_error (estimate_batch v dirs b) i = nth_error (estimate_batch v dirs [q]) 0.
+Proof. exact estimate_batch_single. Qed.
+
+(* ---- metadata: every non-spectral variable is carried over, the spectral ones are replaced by the 2D density *)
+Theorem meta_carried : forall (P : Type) (vars : list (vname * P)) e2d k p,
+  In (NOther k, p) vars <-> In (NOther k, p) (carry_vars vars e2d).
+Proof. exact @meta_carried. Qed.
+
+Theorem meta_only_density : forall (P : Type) (vars : list (vname * P)) e2d n p,
+  In (n, p) (carry_vars vars e2d) -> is_spectral n = true -> n = NE /\ p = e2d.
+Proof. exact @meta_only_density. Qed.
+
+(* ---- non-vacuity: the premises are satisfiable *)
+Example grid4_premises :
+  let th := [0; PI / 2; PI; 3 * PI / 2] in let d := [PI / 2; PI / 2; PI / 2; PI / 2] in
+  th <> [] /\ length d = length th /\ Forall (fun x => 0 < x) d.
+Proof.
+  simpl. pose proof PI_RGT_0. repeat split; try discriminate.
+  repeat constructor; lra.
+Qed.
+
+Example isotropic_mem_defined : exists D, mem_point [0; PI] 0 0 0 0 = Some D.
+Proof.
+  apply mem_point_defined; try discriminate; try lra.
+  - unfold mem_num, mem_phi1, mem_phi2, mem_one_minus_c1sq. simpl. lra.
+  - intros t _. unfold mem_den, mem_phi1, mem_phi2, mem_one_minus_c1sq. simpl. lra.
+Qed.
